@@ -340,6 +340,29 @@ Proof.
                             exact (score_between_present track Hd s 0 t (score_dur s) w2 Hs ltac:(lia) H2)].
 Qed.
 
+(* the ends of "cutting at any time t": at t = 0 and at t = total one piece is the library's empty window and the other is the window
+   [0, b) with b at or beyond the end - which lasts and SOUNDS exactly like the score (so the re-joined pieces do) *)
+Theorem score_whole_window track s b : String.prefix "drums" track = false -> full_score s -> clean_score s track ->
+  0 < score_dur s -> score_dur s <= b ->
+  exists w, score_between s 0 0 b = Some w /\ score_dur w = score_dur s /\ sounding_of w track = sounding_of s track.
+Proof.
+  intros Hd Hf Hs Ht Hb.
+  destruct (score_between_dur s 0 0 b Hf ltac:(lia)) as (w & H & D & F).
+  exists w. split; [exact H|]. split; [lia|].
+  unfold sounding_of.
+  assert (Fs : track_full s track).
+  { clear - Hs. induction Hs as [|c s (_ & _ & E) _ IH]; constructor; assumption. }
+  assert (Fw : track_full w track).
+  { apply track_full_of_full; [exact F|]. exact (score_between_present track Hd s 0 0 b w Hs ltac:(lia) H). }
+  rewrite (items_timeline track _ 0 Fw), (items_timeline track _ 0 Fs).
+  rewrite (score_between_timeline track Hd s 0 0 b w Hs ltac:(lia) H).
+  pose proof (tl_positive s track Hs) as Pp.
+  assert (Cd : cdur (tl s track) = score_dur s).
+  { clear - Fs. induction Fs as [|c s (part & P & D) _ IH]; [reflexivity|]. rewrite tl_cons. unfold cdur in *.
+    rewrite map_app, part_dur_app, IH, score_dur_cons, map_map. cbn [snd]. rewrite map_id. unfold part_of. rewrite P, D. reflexivity. }
+  rewrite (cclip_inside (tl s track) 0 0 b Pp ltac:(lia) ltac:(lia)). reflexivity.
+Qed.
+
 (* non-vacuity: two chords, a cut inside a note of the first chord *)
 Example score_rejoin_ex :
   let nt k v du := mkTN (mkP k Abs v 0 None None) du 66 in
